@@ -25,10 +25,10 @@ try:
     rc, out = sh('git -C /repo worktree add -f --detach %s HEAD' % wt, cwd='/repo')
     assert rc == 0, out
     demo_text = open(os.path.join(src, 'demo.rs')).read()
-    snippet = ('#[cfg(test)]' in demo_text and re.search(r'\bmod\s+\w+', demo_text) and 'append' in notes.lower())
+    mfile = re.search(r'(simple-(?:dns|mdns)/src/[\w/]+\.rs)', notes + '\n' + demo_text[:600])
+    snippet = ('#[cfg(test)]' in demo_text and re.search(r'^mod\s+\w+', demo_text, re.M) and mfile is not None)
     if snippet:
         # a crate-internal #[cfg(test)] module to append to a source file named in the notes
-        mfile = re.search(r'(simple-(?:dns|mdns)/src/[\w/]+\.rs)', notes)
         target = os.path.join(wt, mfile.group(1))
         crate = 'simple-mdns' if 'simple-mdns' in mfile.group(1) else 'simple-dns'
         res['crate'] = crate
